@@ -2620,6 +2620,7 @@ class InterleavedSequence(T2Contract):
             # [leaf] ((xmin, xmax), (ymin, ymax)) of the coordinates present: non-empty ranges
             x0, x1, y0, y1 = cx.Int("auto_xmin"), cx.Int("auto_xmax"), cx.Int("auto_ymin"), cx.Int("auto_ymax")
             cx.assume(And(x0 <= x1, y0 <= y1))
+            cx.ghost["auto"] = dict(xmin=x0, xmax=x1, ymin=y0, ymax=y1)
             return ((x0, x1), (y0, y1))
         if name == "parse_boundary_sequence":
             # [leaf] a tuple of strings from {xmin, xmax, ymin, ymax}, of any length (repeats allowed)
@@ -2728,6 +2729,9 @@ class InterleavedSequence(T2Contract):
                                                 b["ymin"] >= e["b"]["ymin"], b["ymax"] <= e["b"]["ymax"]),
             "opposing boundaries never closer than min(start, max_separation)":
                 And(sep["x"] >= Min(e["sep"]["x"], ms), sep["y"] >= Min(e["sep"]["y"], ms)),
+            "starting borders: the given value, else the range of coordinates present":
+                And(*[e["b"][d] == (v.old[d] if v.old[d] is not None else cx.ghost.get("auto", {}).get(d, z3.Int("no-auto-range")))
+                      for d in DIRS2]),
             "queue-length >= 0": seqlen(v.sequence) >= 0,
             "options-dict-not-modified": And(set(v.contract_boundary_opts) == set(cx.ghost["opts0"]),
                                              *[same_value(v.contract_boundary_opts.get(k, ABSENT), x)
